@@ -173,6 +173,9 @@ def add_header_to_file(
         out.write("\n")
         result = 1
     else:
+        # Encode before the file is opened (and thereby truncated): a header
+        # that cannot be encoded must not cost the file its contents.
+        (bom + output).encode("utf-8")
         with open(path, "w", encoding="utf-8", newline=line_ending) as fp:
             fp.write(bom + output)
         # TODO: This may need to be rephrased more elegantly.
